@@ -12,6 +12,7 @@ import GMGDriver.OptionsDrv
 import GMGDriver.InputFnDrv
 import GMGDriver.FootDrv
 import GMGDriver.OwnerDrv
+import GMGDriver.SmCodeDrv
 
 def main (args : List String) : IO UInt32 := do
   match args with
@@ -31,6 +32,7 @@ def main (args : List String) : IO UInt32 := do
   | ["options"] => OptionsDrv.main
   | ["inputfn"] => InputFnDrv.main
   | ["foot"] => FootDrv.main
+  | ["smcode"] => SmCodeDrv.main
   | ["owner", a, b] => OwnerDrv.main a.toNat! b.toNat!
   | ["sched", a, b] => SchedDrv.main a.toNat! b.toNat!
   | _ => do
